@@ -339,6 +339,7 @@ def main(argv):
         baseline = json.load(open(bp))
 
     inconclusive = []
+    inconclusive += static_hygiene(sel)
     violations = []   # (harness_id, desc, loc, engine)
     known_hits = []
     prep_log = []
@@ -586,6 +587,35 @@ def write_evidence(prop, tier, seed, sel, results, vres, prep_log, kani_runs, vi
     evdir = os.environ.get("VERIF_EVIDENCE_DIR") or (VERIF + "/evidence")
     os.makedirs(evdir, exist_ok=True)
     json.dump(ev, open(evdir + f"/{prop}.json", "w"), indent=1)
+
+
+def static_hygiene(sel):
+    """Kani 0.68 places a zero-initialised 8-byte `static mut` in the same allocation as the std constant
+    RawVec::ZERO_CAP (DESIGN.md section 2): every `static mut` of the harness sources must therefore be a record
+    whose initialiser starts with a unique `marker: 0x5EED_...` value. A violation of this rule makes the run
+    inconclusive (never an alarm, never a pass)."""
+    out = []
+    files = {h["file"] for h in sel}
+    if files:
+        att = json.load(open(VERIF + "/contracts/kani/attach.json"))
+        files |= set(att.get("always", []))
+        for f in list(files):
+            files |= set(att.get("deps", {}).get(f, []))
+    markers = {}
+    for f in sorted(files):
+        pth = VERIF + "/contracts/kani/" + f
+        if not os.path.exists(pth):
+            continue
+        t = open(pth).read()
+        for m in re.finditer(r"^\s*(?:pub(?:\([a-z]+\))?\s+)?static\s+mut\s+(\w+)\s*:[^=]*=\s*([^;]*);", t, re.M | re.S):
+            mk = re.search(r"marker:\s*(0x5EED[0-9A-Fa-f_]+)", m.group(2))
+            if not mk:
+                out.append(f"harness hygiene: {f}: static mut {m.group(1)} has no unique marker field")
+            elif mk.group(1) in markers and markers[mk.group(1)] != (f, m.group(1)):
+                out.append(f"harness hygiene: {f}: static mut {m.group(1)} reuses marker {mk.group(1)}")
+            else:
+                markers[mk.group(1)] = (f, m.group(1))
+    return out
 
 
 def assumption_scan(sel, vres):
